@@ -266,7 +266,7 @@ func TestCluster(t *testing.T) {
 			nn := 2 + rng.Intn(2)
 			m := &mesh{t: t, nodes: map[string]*node{}, agInst: map[string]*node{}, part: map[string]int{}, rng: rng}
 			m.cfg = scenCfg{T: []timers{{10 * time.Second, time.Minute, 4 * time.Minute}, {30 * time.Second, 5 * time.Minute, 20 * time.Minute}, {5 * time.Second, 30 * time.Second, 2 * time.Minute}}[rng.Intn(3)],
-				Integs: mkIntegs([]string{"webhook"}, []bool{true})}
+				Integs: mkIntegs([]string{"webhook"}, []bool{true}), AGC: int64(30 * time.Minute / time.Millisecond)}
 			// a third of the clusters route through child routes (an alert in several groups, a second receiver)
 			switch rng.Intn(6) {
 			case 0:
